@@ -15,7 +15,7 @@ LEMMA_FILES = []
 REQUIRED_THEOREMS = ['header_count', 'declared_counts', 'read_write', 'second_cycle', 'mask_preserved']
 RULE = ('1-D time-series files (1-6 records, 1-4 dependent variables incl. names with "/", values over 30 orders of '
         'magnitude, negative, zero, values that need rounding to 7 digits; missing codes -999 ... -99999999, 9999999, '
-        'non-integer codes; the independent variable first, second or last among the input\'s variables; array fill value equal to or different from missing_value; 0-8 header attributes incl. '
+        'non-integer codes; the independent variable first, second or last among the input\'s variables; array fill value equal to or different from missing_value; variables with masked cells and no missing_value attribute (the default code -999 is declared and written); 0-8 header attributes incl. '
         'all optional standard ones): the text written by the library is parsed by an independent line tokenizer and '
         'compared line by line with the Lean writer model; the file read back by the library (explicit format and '
         'auto-detection) is compared with the Lean reader model applied to those lines; oracle: names/order, units, '
@@ -45,9 +45,12 @@ def gen(rng, tier):
         deps = []
         for i in range(rng.randint(1, 4)):
             code = rng.choice(CODES)
+            nocode = rng.random() < 0.15        # no missing_value attribute: the writer's default code (-999) stands for the masked cells
+            if nocode:
+                code = -999
             near = [code * (1 - 5e-6), code * (1 + 3e-6), code + 0.05 * (1 if abs(code) < 1e5 else 1000)]   # close to the code, different at 7 digits
             deps.append(dict(name=rng.choice(['O3', 'NO2_ppbv', 'CO', 'Alt/m', 'T']) + str(i), unit=rng.choice(['ppbv', 'm', 'K', 'molec cm-3', 'unknown', 'mol/(m2 s)', 'ug/m3 (STP)', '(dimensionless)']),
-                             code=code, fill=rng.choice([code, code, -7777, 1e20]),
+                             code=code, nocode=nocode, fill=rng.choice([code, code, -7777, 1e20]),
                              vals=[rng.choice(VALS + near + [rng.uniform(-1, 1) * 10 ** rng.randint(-8, 8)]) for _ in range(nrec)],
                              mask=[rng.random() < 0.25 for _ in range(nrec)]))
         attrs = rng.sample(HEADS + EXTRA, rng.randint(0, 8))
@@ -78,7 +81,8 @@ def build(case):
         v = f.createVariable(d['name'], 'd', ('POINTS',), fill_value=d['fill'])
         v[:] = np.ma.masked_array(np.array(d['vals'], dtype='d'), mask=np.array(d['mask']))
         v.units = d['unit']
-        v.missing_value = d['code']
+        if not d.get('nocode'):
+            v.missing_value = d['code']
     if ipos == len(case['deps']):
         mkindep()
     for a in case['attrs']:
